@@ -121,7 +121,11 @@ func runSolver(ctx context.Context, sp solverSpec, query string, timeout time.Du
 // solveLocal races the portfolio; the first definite answer wins and the
 // other solvers are killed.
 func solveLocal(query string, timeout time.Duration, portfolio bool) Verdict {
-	st, out, el := runSolver(context.Background(), solvers[0], query, minDur(timeout, 3*time.Second))
+	ft := minDur(timeout, 3*time.Second)
+	if !portfolio {
+		ft = timeout
+	}
+	st, out, el := runSolver(context.Background(), solvers[0], query, ft)
 	if st == "sat" || st == "unsat" {
 		return Verdict{Status: st, Solver: solvers[0].name, Time: el, SMTSize: len(query), Output: out}
 	}
